@@ -897,7 +897,9 @@ func (m *MutableOverlayWorld) AddTag(id b6.FeatureID, tag b6.Tag) error {
 			m.index.Add(f, []string{tokenAfter})
 		}
 	} else {
-		base := m.base.FindFeatureByID(id)
+		// Read the feature through this world, rather than directly from
+		// the base, so that tags already modified here are retained.
+		base := m.FindFeatureByID(id)
 		if base == nil {
 			return fmt.Errorf("No feature with ID %s", id)
 		}
@@ -907,6 +909,7 @@ func (m *MutableOverlayWorld) AddTag(id b6.FeatureID, tag b6.Tag) error {
 			m.features.AddFeature(f)
 			m.references.AddFeature(f)
 			m.index.Add(f, TokensForFeature(WrapFeature(f, m)))
+			delete(m.tags, id)
 		} else {
 			m.tags.ModifyOrAddTag(id, tag)
 		}
@@ -923,7 +926,8 @@ func (m *MutableOverlayWorld) RemoveTag(id b6.FeatureID, key string) error {
 		}
 		f.RemoveTag(key)
 	} else {
-		base := m.base.FindFeatureByID(id)
+		// As for AddTag, read the feature through this world.
+		base := m.FindFeatureByID(id)
 		if base == nil {
 			return fmt.Errorf("No feature with ID %s", id)
 		}
@@ -934,6 +938,7 @@ func (m *MutableOverlayWorld) RemoveTag(id b6.FeatureID, key string) error {
 				m.features.AddFeature(f)
 				m.references.AddFeature(f)
 				m.index.Add(f, TokensForFeature(WrapFeature(f, m)))
+				delete(m.tags, id)
 			} else {
 				m.tags.RemoveTag(id, key)
 			}
